@@ -98,15 +98,15 @@ class C20(Prop):
     TECHNIQUE = "Coq proof (loop invariants over the explicit-stack removal, extensional graph views) + vm_compute correspondence"
     RULE = ("operation sequences (add / remove_nodes with and without pruning, with duplicate and absent nodes / replace / "
             "promote_to_source) of length 4..26 on <=12 node names, in three modes: DAG (edges low->high), arbitrary "
-            "digraph with cycles and self-loops, layered provenance-like DAG; thorough adds all sequences of <=4 ops over "
-            "2 nodes and <=3 ops over 3 nodes from a small op alphabet. Non-trivial = contains a pruning removal or promote that "
+            "digraph with cycles and self-loops, layered provenance-like DAG; thorough adds all sequences of <=3 ops over "
+            "2 nodes plus samples of the 4-op (2 nodes) and 3-op (3 nodes) sequences from a small op alphabet. Non-trivial = contains a pruning removal or promote that "
             "removes >=2 nodes, or a replace of a node with edges. Distinct = distinct canonical JSON.")
     TRUSTED = ("model: Graph/Model.v (DirectedGraph.add/remove_nodes/replace, DirectedAcyclicGraph.promote_to_source, "
                "query methods) is hand-written; CPython dict and set are not verified, only exercised",)
     ASSUMPTIONS = ("set iteration order is an arbitrary permutation that may depend on the set's contents and representation",
                    "nodes are hashable values with well-behaved equality (ints in the correspondence)")
     MAX_WORKERS = 6
-    COQ_SHARD = 150
+    COQ_SHARD = 300
     CASE_TIMEOUT = 30
 
     # ---------------------------------------------------------------- generation
@@ -177,15 +177,17 @@ class C20(Prop):
                 a += [["pro", u] for u in range(k)]
                 return a
             a2 = alpha(2)
-            for L in range(1, 5):
+            for L in range(1, 4):                      # every sequence of <=3 ops over 2 nodes
                 for ops in itertools.product(a2, repeat=L):
                     if ops[0][0] != "add":
                         continue
                     cases.append({"f": "seq", "mode": "exh2", "ops": [list(o) for o in ops]})
+            four = [ops for ops in itertools.product(a2, repeat=4) if ops[0][0] == "add"]
+            for ops in rng.sample(four, 5000):         # a sample of the 4-op sequences
+                cases.append({"f": "seq", "mode": "exh2", "ops": [list(o) for o in ops]})
             a3 = [o for o in alpha(3) if not (o[0] == "add" and o[2] is None)]
-            for ops in itertools.product(a3, repeat=3):
-                if ops[0][0] != "add":
-                    continue
+            three = [ops for ops in itertools.product(a3, repeat=3) if ops[0][0] == "add"]
+            for ops in rng.sample(three, 3000):
                 cases.append({"f": "seq", "mode": "exh3", "ops": [list(o) for o in ops]})
         return cases
 
